@@ -310,9 +310,10 @@ def run(ctx):
     # ---- R03.6: the ranking starts from a clean slate - check() tells "nothing on the command line" from the value state,
     # so that state must have been emptied before the tokens were applied (C14's R14.2 re-evaluated)
     ctx.rule("R03.6", "value state is emptied by prepare() before the command line is applied (R14.2 re-evaluated): a value of an earlier parse cannot outrank the environment")
-    if ctx.prop == "C03":
+    if ctx.prop == "C03" and not getattr(ctx, "_sharing", False):
         from . import C14
         sub = type(ctx)(ctx.prop, ctx.prog, ctx.tier)
+        sub._sharing = True
         C14.run(sub)
         n6 = 0
         for o in sub.obs:
